@@ -5,7 +5,8 @@ X1  path conditions in the gate (read_file_with_callback), per restriction r:
       every path to `return code_r` carries flag_r and mismatch_r (right polarity, right stat field);
       the struct stat comes from lstat() of the function's own file_name.
 X2  choke point: no other way to file content (shared with C06.G1).
-X3  reset stores the permissive constant into every flag the gate reads; each setter writes its own pair."""
+X3  reset stores the permissive constant into every flag the gate reads; each setter writes its own pair.
+X4  callers hand the gate the name as found (no realpath before the lstat).   X5  a refusal aborts the read (= C06.G4)."""
 from sa.ast import render
 from sa.facts import Inconclusive
 from sa import query
@@ -90,8 +91,50 @@ def _mismatch_kind(lit, spec, statvar):
     return None
 
 
+RESOLVERS = ("realpath", "canonicalize_file_name", "get_absolute_path", "readlink", "readlinkat")
+
+
+def x4_callers(prog, ctx, gate):
+    """X4: the gate is given the name the file was FOUND under.  A caller that resolves the name first (realpath and friends
+    follow symbolic links) makes lstat() in the gate look at the link's target: the symlink restriction can no longer fire and
+    owner/group are those of the target."""
+    from sa.dataflow import ReachingDefs, origins
+    n = 0
+    for f in prog.lib_functions():
+        calls = f.calls(gate.name)
+        if not calls or f.name == gate.name:
+            continue
+        rd = ReachingDefs(f)
+        for c in calls:
+            n += 1
+            a = c.call_args()[1]
+            o = origins(rd, a, c, passthrough={"stpcpy": 0, "strcpy": 0, "strcat": 0, "strncpy": 0, "memcpy": 0, "mempcpy": 0})
+            res = [x for x in o if not isinstance(x, tuple) and x.k == "CallExpr" and x.j.get("callee") in RESOLVERS]
+            # a direct use of a resolver's output buffer
+            direct = [r for r in f.calls(RESOLVERS) if len(r.call_args()) > 1 and render(r.call_args()[1]) == render(a)]
+            inst = "%s hands the gate the name as found" % f.name
+            if res or direct:
+                rr = (res or direct)[0]
+                ctx.fail("X4", inst, c.where,
+                         "the file name passed to %s() comes out of %s(): symbolic links are resolved before the gate's lstat(), so the no-symlink rule "
+                         "never fires for that file and owner/group are checked on the link's target" % (gate.name, rr.j["callee"]), key="resolved-before-gate:%s" % f.name)
+            else:
+                ctx.ok("X4", inst, c.where, "argument `%s` does not stem from realpath()/get_absolute_path()" % render(a))
+    ctx.counts["X4 callers of the gate"] = n
+
+
 def run(prog, ctx):
     gate, parser = common.choke_point(prog, ctx, "X2")
+    x4_callers(prog, ctx, gate)
+    # X5: a refusal aborts the whole read - the code travels up unchanged and no further file is read (= C06.G4), and no loop over
+    # files is left with success (own_rules.no_early_success)
+    from rules import C06, own_rules
+    before = len(ctx.obs)
+    C06.g4(prog, ctx, C06.chain_functions(prog))
+    own_rules.no_early_success(prog, ctx, "X5")
+    for ob in ctx.obs[before:]:
+        if ob.rule == "G4":
+            ob.rule = "X5"
     cfg = gate.cfg
     pcall = query.unique_call(gate, common.PARSER)
     tblock = cfg.block_of(pcall)
